@@ -65,9 +65,14 @@ HandleCEA ==
   /\ UNCHANGED <<cli, i, ncer, npeer, appOK>>
 SendOnClosed == /\ srv = "sendErr" /\ errc = "closed" /\ srv' = "panicked" /\ closed' = TRUE
                 /\ UNCHANGED <<cli, i, errc, meta, inq, ncer, npeer, appOK>>
+\* the peer disconnects instead of answering (before any CEA was accepted): the serve goroutine reads EOF and closes the transport; the dialling
+\* goroutine notices at its next transmission (SendFails) or runs into its timers
+PeerEOF == /\ ncer > 0 /\ ~closed /\ srv = "idle" /\ inq = <<>> /\ errc = "open" /\ ~meta /\ cli \notin {"done_ok", "done_err"}
+           /\ closed' = TRUE
+           /\ UNCHANGED <<cli, i, errc, srv, meta, inq, ncer, npeer, appOK>>
 AppAnswer == /\ cli = "done_ok" /\ srv = "idle" /\ inq = <<>> /\ ~closed /\ appOK' = TRUE
              /\ UNCHANGED <<cli, i, errc, srv, meta, inq, ncer, closed, npeer>>
-Next == WriteCER \/ EnterSelect \/ SendFails \/ RecvClosed \/ RecvErr \/ Timer \/ (\E k \in {"ok", "fail"} : Peer(k)) \/ HandleCEA \/ SendOnClosed \/ AppAnswer
+Next == WriteCER \/ EnterSelect \/ SendFails \/ RecvClosed \/ RecvErr \/ Timer \/ (\E k \in {"ok", "fail"} : Peer(k)) \/ HandleCEA \/ SendOnClosed \/ AppAnswer \/ PeerEOF
 Spec == Init /\ [][Next]_vars
 
 \* HandshakeObs at design level
